@@ -114,6 +114,18 @@ func sliceProv(v ssa.Value) SliceProv {
 			rec(x.X)
 		case *ssa.Convert:
 			rec(x.X)
+		case *ssa.UnOp:
+			// load of a local slice variable that lives in memory (captured read-only by a closure,
+			// or address-taken): union over every store to it (flow-insensitive superset)
+			if al, ok := x.X.(*ssa.Alloc); ok && x.Op == token.MUL && addrConfined(al, al) {
+				for _, r := range *al.Referrers() {
+					if st, ok := r.(*ssa.Store); ok && st.Addr == ssa.Value(al) {
+						rec(st.Val)
+					}
+				}
+				return
+			}
+			out.Roots = append(out.Roots, v)
 		case *ssa.Const:
 			// nil slice: contributes no elements
 		case *ssa.MakeSlice:
